@@ -5,8 +5,9 @@
     equation; nodes are numbered by the harness, `key v` is `str(v)` (the sort key handed to networkx).
     An equation is its left-hand side, the set `find_variables_and_derivatives([rhs])` as a list (in whatever order
     Python's set iteration produced; `Model.graph` sorts it by `str` before walking it), the same set after
-    `rhs.xreplace({Quantity: Float})` (OBSERVED from SymPy — the simplifier is not modelled), and, for an ODE, the pair
-    (state, free variable).
+    `rhs.xreplace({Quantity: Float})` (OBSERVED from SymPy — the simplifier is not modelled), whether the right-hand
+    side contains a `Quantity` at all (`bool(rhs.atoms(Quantity))`: `graph_with_sympy_numbers` substitutes, and prunes
+    in-edges, ONLY in such an equation), and, for an ODE, the pair (state, free variable).
 
     All functions are structurally recursive (Kahn's loop and the ancestor closure run on fuel = number of nodes), so
     they reduce in the kernel and `decide` can evaluate them. -/
@@ -25,7 +26,16 @@ structure Eqn where
   refsNum : List Node
   /-- `some (state, free)` when the left-hand side is `Derivative(state, free)` -/
   ode : Option (Node × Node) := none
+  /-- `bool(equation.rhs.atoms(Quantity))`: the right-hand side contains a number with units. Python's
+      `graph_with_sympy_numbers` looks only at such equations (`if subs_dict:`); every other equation keeps its
+      right-hand side and all its in-edges, whatever `refsNum` says. (Default `true`: an equation written without the
+      flag is one whose `refsNum` counts.) -/
+  hasQ : Bool := true
 deriving Repr, DecidableEq
+
+/-- the references of the right-hand side that `graph_with_sympy_numbers` leaves in the `equation` attribute of the
+    node: the substituted one if there was something to substitute, the original one otherwise -/
+def Eqn.numRefs (e : Eqn) : List Node := if e.hasQ then e.refsNum else e.refs
 
 /-- A `networkx.DiGraph` as far as the code looks at it: nodes in insertion order, edges. -/
 structure Graph where
@@ -114,10 +124,11 @@ def buildGraph (key : Node → String) (eqs : List Eqn) : Except Err Graph :=
 
 def eqnOf (eqs : List Eqn) (v : Node) : Option Eqn := eqs.find? fun e => e.lhs == v
 
-/-- an in-edge `ref → lhs` survives iff `ref` is still referenced after the numbers went in -/
+/-- an in-edge `ref → lhs` survives iff the equation of `lhs` holds no `Quantity` (python: `if subs_dict:` — such an
+    equation is not looked at), or `ref` is still referenced after the numbers went in -/
 def keepEdge (eqs : List Eqn) (e : Edge) : Bool :=
   match eqnOf eqs e.2 with
-  | some q => e.1 ∈ q.refsNum
+  | some q => !q.hasQ || e.1 ∈ q.refsNum
   | none => true
 
 def stripGraph (eqs : List Eqn) (g : Graph) : Graph := ⟨g.nodes, g.edges.filter (keepEdge eqs)⟩
